@@ -78,22 +78,23 @@ def build(ctx):
         for dt, srt in (("f8", tm.R), ("i8", tm.I)):
             tarr = ArrV((nn,), lambda i_, srt=srt: tm.app("t_in", i_, srt), dt, name="t_in")
             outs = [o_ for o_ in paths(ctx, F1, [RF, tarr, M, tau]) if o_.kind != "infeasible"]
-            if len(outs) != 1 or outs[0].kind != "return":
-                raise sx.OutOfSubset("_forecast_cum_onephase on an array: no unique returning path")
-            res = outs[0].value
-            res = res.arr if hasattr(res, "arr") else res
-            if not isinstance(res, ArrV) or res.ndim != 1:
-                return be.Verdict(be.REFUTED, "CAS", witness={"time dtype": dt}, detail="the forecast of an array of times is not a 1-D array")
-            tj = tm.app("t_in", [jj], srt)
-            tjv = tm.var("tj", srt)
-            got = tm.subst(res.get(jj), {tj: tjv})
-            want = M * rfapp(tm.toreal(tjv) / tau)
-            v = be.prove_equal_cas(got, want, dict(BOX, tj=(0.0, 4000.0)), seed=ctx.seed, ints=(("tj",) if srt == tm.I else ()))
-            if v.status != be.PROVED:
-                v.detail = f"[time array of dtype {'int64' if dt == 'i8' else 'float64'}] element j is not M * rf(t_j / tau): " + v.detail
-                if v.witness is not None:
-                    v.witness["time_dtype"] = "int64" if dt == "i8" else "float64"
-                return with_models(v, outs[0])
+            if not outs or any(o_.kind != "return" for o_ in outs):
+                raise sx.OutOfSubset("_forecast_cum_onephase on an array: a path that does not return")
+            for o_k in outs:   # every returning path (a type dispatch on the arguments gives several)
+                res = o_k.value
+                res = res.arr if hasattr(res, "arr") else res
+                if not isinstance(res, ArrV) or res.ndim != 1:
+                    return be.Verdict(be.REFUTED, "CAS", witness={"time dtype": dt}, detail="the forecast of an array of times is not a 1-D array")
+                tj = tm.app("t_in", [jj], srt)
+                tjv = tm.var("tj", srt)
+                got = tm.subst(res.get(jj), {tj: tjv})
+                want = M * rfapp(tm.toreal(tjv) / tau)
+                v = be.prove_equal_cas(got, want, dict(BOX, tj=(0.0, 4000.0)), seed=ctx.seed, ints=(("tj",) if srt == tm.I else ()))
+                if v.status != be.PROVED:
+                    v.detail = f"[time array of dtype {'int64' if dt == 'i8' else 'float64'}] element j is not M * rf(t_j / tau): " + v.detail
+                    if v.witness is not None:
+                        v.witness["time_dtype"] = "int64" if dt == "i8" else "float64"
+                    return with_models(v, o_k)
         return v
 
     def law_arrays_replay(w):
